@@ -35,6 +35,18 @@ def jobs(tier):
                                    expect=[kind + ": emitted bytes equal the reference image"]))
         js.append(dict(name=f"defaults[L={L}]", fn="defaults", args=[L], collect_models=1))
         js.append(dict(name=f"toggling[L={L}]", fn="toggling", args=[L], collect_models=1))
+    # the same steps on a writer with a past (earlier padded / plain / numeric / rejected writes, mode toggles)
+    for k in NUM:
+        js.append(dict(name=f"history+number[{k}]", fn="with_history", args=["number", k, 1], collect_models=1,
+                       expect=[k + ": emitted bytes equal the reference image"]))
+    for L in ((0, 1, 2) if tier == "quick" else (0, 1, 2, 3, 4)):
+        for kind in ("string", "encoded_string"):
+            js.append(dict(name=f"history+{kind}[L={L}]", fn="with_history", args=["string", kind, L, 1], collect_models=1,
+                           expect=[kind + ": emitted bytes equal the reference image"]))
+        for kind in ("fixed_string", "fixed_encoded_string"):
+            js.append(dict(name=f"history+{kind}[L={L}]", fn="with_history", args=["fixed", kind, L, 1, 0, L + 5], collect_models=1,
+                           expect=[kind + ": emitted bytes equal the reference image"]))
+    js.append(dict(name="history+raw_bytes[2]", fn="with_history", args=["raw_bytes", 2, 1], collect_models=1))
     # size thresholds: a writer that already holds a lot (300 bytes; 66,000 in the thorough tier) and long strings
     for npre in ((300,) if tier == "quick" else (300, 66000)):
         for k in NUM:
